@@ -9,7 +9,14 @@ RULE = ("codec: structured Message values (extremes per field, payload sizes aro
         "peer replying in a scripted permutation with request-derived content, duplicates and unknown numbers, then close / corrupt / "
         "half frame / stall, then a second wave of calls. non-trivial (client, judged on the model): a response overtakes an older "
         "outstanding request, or the connection fails with callers waiting; (codec read): at least one message decoded or a malformed end. "
-        "distinct by case content")
+        "distinct by case content. server: the real rpc.NewServer(conn, processor).Handle() over TCP loopback with a scripted types.DataProcessor "
+        "(read data derived from offset, a per-case token and the call index; scripted errors, io.EOF with counts 0..len, partly filled buffers, "
+        "delays) and a raw client writing frames with chosen Seq values (a wrapping counter, all equal, duplicates, descending, random) "
+        "sequentially, pipelined (one write of all frames, the processor is held until it is done) or in chunks of 1..100 bytes, optionally "
+        "followed by a cut frame / a frame with a wrong magic / garbage; enumerated: every (handled type, outcome) alone and every ordered pair "
+        "of them pipelined under one Seq, every unhandled type; the model's replies are compared frame by frame and c15_server_ok is evaluated "
+        "on the implementation's replies. non-trivial (server, judged on the model): pipelined, at least two frames, at least one TypeError or "
+        "TypeEOF reply")
 
 
 def corpus():
@@ -25,6 +32,7 @@ def gen(ctx, quick):
     cases = corpus()
     cases += rpclib.write_cases(rng, 220 if quick else 3000)
     cases += rpclib.read_cases(rng, 220 if quick else 3000)
+    cases += rpclib.serve_cases(rng, 600 if quick else 12000)
     if quick:
         cases += rpclib.loop_cases(rng, 100, 100, 64)
         cases += [rpclib.gen_raced(rng, n) for n in (1, 2, 5, 16)]
@@ -42,7 +50,7 @@ def report(ctx, binpath, case, finding, searched):
     small = rpclib.shrink(ctx, binpath, case, kind, what=finding["what"])
     f2, _, o2 = rpclib.evaluate(ctx, binpath, [dict(small)], tag="fin")
     obj = dict(property="C15", kind=("oracle / measured bound fails on the implementation" if kind == "concrete"
-                                     else "correspondence Rpc.Corr broken (model coq/theories/Rpc/Model.v vs rpc/wire.go, rpc/client.go)"),
+                                     else "correspondence Rpc.Corr / Rpc.Server broken (model coq/theories/Rpc/Model.v, Server.v vs rpc/wire.go, rpc/client.go, rpc/server.go)"),
                what=finding["what"], detail=finding["detail"], case=rpclib.clean(small),
                observed=o2.get(0), findings_on_minimized=[dict(what=f["what"], detail=f["detail"], kind=f["kind"]) for f in f2],
                searched=searched, replay_cmd="bin/vcheck C15 --replay <this file>")
@@ -115,7 +123,8 @@ def main(ctx, replay=None):
     elif drift or not proof["ok"]:
         # the proof or the correspondence no longer checks: search wider for an input on which the
         # property itself fails on the implementation
-        extra = rpclib.write_cases(ctx.rng, 600) + rpclib.read_cases(ctx.rng, 600) + rpclib.loop_cases(ctx.rng, 60, 90, 40)
+        extra = (rpclib.write_cases(ctx.rng, 600) + rpclib.read_cases(ctx.rng, 600) + rpclib.loop_cases(ctx.rng, 60, 90, 40)
+                 + [rpclib.gen_serve(ctx.rng) for _ in range(1500)])
         f2, _, _ = rpclib.evaluate(ctx, binpath, extra, tag="search")
         searched += len(extra)
         c2 = [f for f in f2 if f["kind"] == "concrete" and f.get("known_key") not in known]
@@ -129,8 +138,10 @@ def main(ctx, replay=None):
     # ---- evidence
     lflags = cov["l"]
     rflags = cov["r"]
+    sflags = cov["s"]
     seen = set()
     nontriv = 0
+    s_nontriv = 0
     for i, c in enumerate(cases):
         key = json.dumps(rpclib.clean(c), sort_keys=True)
         if key in seen:
@@ -142,15 +153,32 @@ def main(ctx, replay=None):
             nontriv += 1
         elif c["k"] == "write":
             nontriv += 1 if (c["msg"]["data"] or c["msg"]["seq"] > 9 or c["msg"]["off"] not in (0, 1)) else 0
+        elif c["k"] == "serve" and (sflags.get(i, 0) & 3) and c["mode"] == "pipe" and len(c["reqs"]) >= 2:
+            nontriv += 1
+            s_nontriv += 1
     dist = dict(case_kinds={}, read_stream_shapes={}, client_faults={}, client_calls={}, client_concurrency={},
-                reply_types={}, event_kinds={})
+                reply_types={}, event_kinds={}, server_modes={}, server_tails={}, server_request_types={}, server_outcomes={},
+                server_frames_per_case={})
 
     def bump(d, k, n=1):
         d[k] = d.get(k, 0) + n
 
     ncalls = 0
-    for c in cases:
+    sframes = 0
+    sreplies = 0
+    for ci, c in enumerate(cases):
         bump(dist["case_kinds"], c["k"])
+        if c["k"] == "serve":
+            bump(dist["server_modes"], c["mode"])
+            bump(dist["server_tails"], c["tailkind"])
+            n = len(c["reqs"])
+            sframes += n
+            sreplies += len((outs.get(ci) or {}).get("replies") or [])
+            bump(dist["server_frames_per_case"], "1" if n == 1 else "2" if n == 2 else "3-8" if n <= 8 else "9-24" if n <= 24 else "25-64")
+            for f, a in zip(c["reqs"], c["oscript"]):
+                bump(dist["server_request_types"], rpclib.TYPE_NAME.get(f["type"], "unhandled"))
+                if f["type"] in rpclib.HANDLED:
+                    bump(dist["server_outcomes"], a["r"] + ("+delay" if a["delay"] else ""))
         if c["k"] == "read":
             bump(dist["read_stream_shapes"], c.get("shape", "?"))
         if c["k"] == "loop":
@@ -169,6 +197,7 @@ def main(ctx, replay=None):
                 bump(dist["event_kinds"], e[0])
     lc = list(lflags.values())
     rc = list(rflags.values())
+    sc = list(sflags.values())
     covflags = dict(
         client_out_of_order_delivery=sum(1 for f in lc if f & 1),
         client_unknown_or_duplicate_dropped=sum(1 for f in lc if f & 2),
@@ -177,7 +206,11 @@ def main(ctx, replay=None):
         client_timer_fired=sum(1 for f in lc if f & 16),
         client_remote_error_or_eof_delivered=sum(1 for f in lc if f & 32),
         read_some_message=sum(1 for f in rc if f & 1), read_bad_magic=sum(1 for f in rc if f & 2),
-        read_ended_inside_frame=sum(1 for f in rc if f & 4), read_payload=sum(1 for f in rc if f & 8))
+        read_ended_inside_frame=sum(1 for f in rc if f & 4), read_payload=sum(1 for f in rc if f & 8),
+        server_error_reply=sum(1 for f in sc if f & 1), server_eof_reply=sum(1 for f in sc if f & 2),
+        server_unhandled_type_answered_unchanged=sum(1 for f in sc if f & 4), server_duplicate_seq=sum(1 for f in sc if f & 8),
+        server_stream_ends_in_non_frame=sum(1 for f in sc if f & 16), server_reply_with_payload=sum(1 for f in sc if f & 32),
+        server_write_size_field_differs_from_payload=sum(1 for f in sc if f & 64), server_eof_shorter_than_buffer=sum(1 for f in sc if f & 128))
     for k, v in covflags.items():
         if v == 0:
             ctx.notes.append("coverage predicate with zero hits: " + k)
@@ -189,6 +222,8 @@ def main(ctx, replay=None):
                 maxms = max(maxms, cp["ms"])
     extra = dict(evaluations=len(cases), distinct_nontrivial=nontriv, rule=RULE,
                  traces_validated_against_impl=len(cases), client_calls=ncalls,
+                 server_cases=sum(1 for c in cases if c["k"] == "serve"), server_request_frames=sframes, server_reply_frames=sreplies,
+                 server_distinct_nontrivial=s_nontriv,
                  model_impl_differences=len(drift), oracle_failures=len(concrete),
                  known_finding_cases=[dict(case=rpclib.clean(cases[f["case"]]) if cases[f["case"]]["k"] == "race" else
                                            dict(calls=len(cases[f["case"]]["calls"]), wave2=len(cases[f["case"]]["wave2"])),
@@ -201,9 +236,11 @@ def main(ctx, replay=None):
                                         hung=bool(r.get("hung"))) for r in races]),
                  theorems=proof.get("theorems", []), exhaustive=False)
     samples = []
-    for k in ("write", "read", "loop"):
+    for k in ("write", "read", "loop", "serve"):
         best = None
         for i, c in enumerate(cases):
+            if k == "serve" and not (c["k"] == "serve" and c["mode"] == "pipe" and c["tail"] and 3 <= len(c["reqs"]) <= 6 and (sflags.get(i, 0) & 3)):
+                continue
             if c["k"] == k and (k != "loop" or (c["fault"] != "none" and not c.get("nowait"))):
                 size = len(json.dumps(rpclib.clean(c)))
                 if best is None or size < best[0]:
@@ -212,7 +249,7 @@ def main(ctx, replay=None):
             i = best[1]
             o = outs.get(i, {})
             samples.append(dict(case=rpclib.clean(cases[i]),
-                                observed={kk: o.get(kk) for kk in ("bytes", "msgs", "end", "closed", "peerlog", "comps", "hung") if kk in o}))
+                                observed={kk: o.get(kk) for kk in ("bytes", "msgs", "end", "closed", "peerlog", "comps", "hung", "replies", "hret", "rend") if kk in o}))
     vlib.write_evidence(ctx, proof, extra, [
         "the model is the loop goroutine's sequential view plus the caller side of operation(); goroutine scheduling, channel capacity "
         "(1024) and the order in which the loop takes requests and responses that are ready at the same time are Go runtime: the harness "
@@ -226,5 +263,12 @@ def main(ctx, replay=None):
         "its own timer (model event ReqRaced; measured by the race case)",
         "C15_reported beyond closeChan (monitorPing -> monitorChan -> controller detaches the replica) belongs to the Ctl model (C05)",
         "io.EOF returned by a call is read as TypeEOF only if the peer sent that call a TypeEOF frame, otherwise as the connection's error",
+        "server: read requests with a negative Size and io.EOF counts outside 0..len(buf) make rpc/server.go panic (make / slice bounds) and an "
+        "*os.PathError with EIO makes it call logrus.Fatal: the model ends the run there (SPanic) and the harness never generates them; read "
+        "sizes are at most 9000 bytes",
+        "server: the end-to-end theorem composes the client machine and the server model over FIFO pipes of whole frames (the byte level is "
+        "the codec theorems); the real client and the real server are driven separately, each against a scripted raw peer",
+        "server: replica/rpc/server.go's accept loop (one connection at a time, logrus.Fatalf when Handle returns) is not driven; Handle's "
+        "5 s ping ticker is outside the time scale of the cases",
     ], samples)
     vlib.finish(ctx)
